@@ -164,11 +164,11 @@ fn c05_binomial_binv() {
 vproof! {
     #[kani::unwind(6)]
     fn c03_binomial_poisson_limit() {
+        let mut rng = SymRng::new(4); // all symbolic inputs are drawn first (replay alignment)
         let n: u64 = kani::any();
         let p: f64 = kani::any();
         kani::assume(p > 0.0 && p < 1.2e-16);
         let d = match Binomial::new(n, p) { Ok(d) => d, Err(_) => return };
-        let mut rng = SymRng::new(4);
         if let Method::Poisson(k) = d.method {
             let x = k.sample(&mut rng) as u64;
             // the Knuth product needs k+1 draws for result k
